@@ -308,6 +308,8 @@ func (f *Fixture) Table() map[string]interface{} {
 		// several results: the rule gets the first one
 		"pr2": func(id int64, v int64) (int64, string, error) { rec.add(id, v); return v + 1, "second", nil },
 		"pr0": func(id int64) { rec.add(id) },
+		// mbump adds 100 to M64["zz"] and yields 1: `M64["zz"] += mbump()` reads the target AFTER the right side ran
+		"mbump": func() int64 { f.M64["zz"] += 100; return 1 },
 		// variadic callees: fixed parameters of other widths than the DSL's own, a typed tail
 		"tvar": func(id int64, base int, rest ...int64) int64 {
 			s := int64(base)
